@@ -259,18 +259,22 @@ def parseFaults (t : String) : Option (List Nat) := (t.splitOn ",").mapM fun x =
 def b01 (b : Bool) : String := if b then "1" else "0"
 def ord3Str : Gen.Ord3 → String | .less => "L" | .equiv => "E" | .greater => "G"
 def int3 (a b : Int) : Gen.Ord3 := if a < b then .less else if b < a then .greater else .equiv
-def cmpLine (tag : String) (fallback : Bool) (l r : List Int) : String :=
+/-- `same`: the operands have the same inline capacity (N = M), so overload resolution picks the same-capacity operators -/
+def cmpLine (tag : String) (fallback same : Bool) (l r : List Int) : String :=
   let lt : Int → Int → Bool := fun a b => decide (a < b)
   let c3 := if fallback then Gen.opCmp3Fallback lt l r else Gen.opCmp3 int3 l r
-  s!"{tag} eq={b01 (Gen.opEq l r)} ne={b01 (Gen.opNe l r)} lt={b01 (Gen.opLt lt l r)} le={b01 (Gen.opLe lt l r)} gt={b01 (Gen.opGt lt l r)} ge={b01 (Gen.opGe lt l r)} c3={ord3Str c3}"
+  if same then
+    s!"{tag} eq={b01 (Gen.opEqSame l r)} ne={b01 (Gen.opNeSame l r)} lt={b01 (Gen.opLtSame lt l r)} le={b01 (Gen.opLeSame lt l r)} gt={b01 (Gen.opGtSame lt l r)} ge={b01 (Gen.opGeSame lt l r)} c3={ord3Str c3}"
+  else
+    s!"{tag} eq={b01 (Gen.opEq l r)} ne={b01 (Gen.opNe l r)} lt={b01 (Gen.opLt lt l r)} le={b01 (Gen.opLe lt l r)} gt={b01 (Gen.opGt lt l r)} ge={b01 (Gen.opGe lt l r)} c3={ord3Str c3}"
 def nerLine (isIf : Bool) (l : List Int) (k : Int) : String :=
   let (l', n) := if isIf then Gen.nmEraseIf l (fun x => x % k == 0) else Gen.nmErase l k
   (if isIf then "nerif [" else "ner [") ++ ",".intercalate (l'.map toString) ++ s!"] {n}"
 
-def pureLine (toks : List String) : Option String :=
+def pureLine (same : Bool) (toks : List String) : Option String :=
   match toks with
-  | ["cmp", l, r] => do pure (cmpLine "cmp" false (← parseVals l) (← parseVals r))
-  | ["cmpw", l, r] => do pure (cmpLine "cmpw" true (← parseVals l) (← parseVals r))
+  | ["cmp", l, r] => do pure (cmpLine "cmp" false same (← parseVals l) (← parseVals r))
+  | ["cmpw", l, r] => do pure (cmpLine "cmpw" true same (← parseVals l) (← parseVals r))
   | ["ner", l, k] => do pure (nerLine false (← parseVals l) (← k.toInt?))
   | ["nerif", l, k] => do let k ← k.toInt?; if k ≤ 0 then none else pure (nerLine true (← parseVals l) k)
   | _ => none
@@ -279,7 +283,7 @@ def pureLine (toks : List String) : Option String :=
 def stepLine (ac : ApiCfg) (N M : Nat) (s : Sys) (line : String) : Sys × String :=
   let line := line.trimAscii.toString
   if line = "reset" then (initSys N M, "reset") else
-  match pureLine (line.splitOn " " |>.filter (· ≠ "")) with
+  match pureLine (decide (N = M)) (line.splitOn " " |>.filter (· ≠ "")) with
   | some o => (s, o)
   | none =>
   let parts := line.splitOn " @"
